@@ -1321,6 +1321,9 @@ class Evaluator:
                     kwargs.append(("**", v))
             else:
                 kwargs.append((k.arg, v))
+        if fterm.op == "global" and fterm.args[0] == "builtins.dict" and not args and not star and kwargs \
+                and all(k != "**" for k, _ in kwargs):
+            return mk("dict", tuple((const(k), v) for k, v in kwargs))   # dict(a=x, b=y) is {"a": x, "b": y}
         return self._call(fterm, args, kwargs, st, e, star)
 
     def _call(self, fterm: T, args, kwargs, st: State, node, star=False) -> T:
